@@ -7,7 +7,7 @@
 From Coq Require Import List NArith Bool.
 From Verif.Common Require Import Packet PolicyRef Labels.
 From Verif.C05 Require Import Model Spec ProofsFilter ProofsProfiles ProofsStep ProofsVerdict ProofsMain ProofsOracle
-  ProofsPolicies ProofsIndex ProofsPolStep ProofsPolMain ProofsNoPanic ProofsTrace.
+  ProofsPolicies ProofsIndex ProofsPolStep ProofsPolMain ProofsNoPanic ProofsTrace ProofsBatch.
 Import ListNotations.
 Open Scope N_scope.
 
@@ -134,7 +134,7 @@ Print Assumptions c05_no_panic.
    model's own trace of every well-typed history, for every validator and every iteration order. *)
 Theorem c05_model_meets_spec : forall (validate : value -> bool) h,
   (forall i, In i h -> wt (i_key i) (i_val i)) ->
-  ok_case {| c_graph := false; c_ops := trace_of validate st0 h |} = true.
+  forall sizes, ok_case {| c_graph := false; c_sizes := sizes; c_ops := trace_of validate st0 h |} = true.
 Proof. exact model_meets_spec. Qed.
 Print Assumptions c05_model_meets_spec.
 
@@ -174,4 +174,45 @@ Example c05_example :
     [EProfActive 7 {| pr_in := [ex_allow]; pr_out := [] |}; EStats 0 0 2];
     [EProfActive 7 dummy_drop; EStats 0 0 1];
     [EProfInactive 7; EProfInactive 8] ].
+Proof. vm_compute. reflexivity. Qed.
+
+(* BATCHES.  ValidationFilter.OnUpdates receives a slice of updates (start-of-day snapshot, coalesced bursts).
+   `run_batches validate s hb` is the stream emitted for a history delivered as the list of batches hb.
+   An invalid value ANYWHERE in a batch - whatever else, valid or invalid, before or after it, the same batch and
+   the rest of the history contain - is message for message a delete of that key. *)
+Theorem c05_invalid_is_absent_batch : forall (validate : value -> bool) hb1 b1 b2 hb2 s k v sched ord,
+  validate v = false ->
+  run_batches validate s (hb1 ++ (b1 ++ write k (Some v) sched ord :: b2) :: hb2)
+  = run_batches validate s (hb1 ++ (b1 ++ write k None sched ord :: b2) :: hb2).
+Proof. exact invalid_in_batch_is_delete. Qed.
+Print Assumptions c05_invalid_is_absent_batch.
+
+(* ... for all invalid values of all batches at once; how the history is cut into batches is irrelevant (so every
+   theorem above about `run` holds for batched delivery); and the forwarded batch has the input's length and keys,
+   each value being the input's or nil, decided by that value alone. *)
+Theorem c05_invalid_is_absent_batches_all : forall (validate : value -> bool) hb s,
+  run_batches validate s (map (map (as_delete validate)) hb) = run_batches validate s hb.
+Proof. exact run_batches_as_delete. Qed.
+Print Assumptions c05_invalid_is_absent_batches_all.
+
+Theorem c05_batching_irrelevant : forall (validate : value -> bool) hb s,
+  run_batches validate s hb = run validate s (concat hb).
+Proof. exact run_batches_flat. Qed.
+Print Assumptions c05_batching_irrelevant.
+
+Theorem c05_filter_batch_shape : forall (validate : value -> bool) b,
+  length (vf_filter_batch validate b) = length b
+  /\ map i_key (vf_filter_batch validate b) = map i_key b
+  /\ Forall2 (fun i o => i_val o = vf_filter validate (i_val i) /\ (i_val o = i_val i \/ i_val o = None))
+             b (vf_filter_batch validate b).
+Proof. exact vf_filter_batch_shape. Qed.
+Print Assumptions c05_filter_batch_shape.
+
+(* Non-vacuity: one batch with TWO invalid profiles (tag 99) around a valid endpoint: both are treated as absent. *)
+Example c05_example_batch :
+  run_batches ex_validate st0
+    [ [ write (KProf 7) (Some (VProf {| pr_in := [ex_bad]; pr_out := [] |})) [] [];
+        write (KEp 0) (Some (VEp {| ep_labels := []; ep_profiles := [7; 8] |})) [] [7; 8];
+        write (KProf 8) (Some (VProf {| pr_in := [ex_bad; ex_allow]; pr_out := [] |})) [] [] ] ]
+  = [ [EStats 0 0 0]; [EProfActive 7 dummy_drop; EProfActive 8 dummy_drop]; [EProfActive 8 dummy_drop; EStats 0 0 0] ].
 Proof. vm_compute. reflexivity. Qed.
